@@ -10,6 +10,7 @@ checked by the C12 correspondence stream.
 import VaxisModel.Props.C07
 import VaxisModel.Props.C01Display
 import VaxisModel.Lemmas.C12Vocab
+import VaxisModel.Props.C01Clip
 
 namespace VaxisModel.Props.C12
 open VaxisModel.Model.Render VaxisModel.Spec VaxisModel.Spec.Display VaxisModel.Lemmas.RenderGate
@@ -291,6 +292,104 @@ example :
       · exact ⟨⟨rfl, by decide, hfits _ (Or.inr rfl), fun r hr c hc => (hcells _ (Or.inr rfl) r hr c hc).1,
           fun _ => by decide⟩, fun r hr c hc => (hcells _ (Or.inr rfl) r hr c hc).2, by decide⟩)
     fi1 rfl
+  exact ⟨e0, e1, e', h0, h1, hr, hsh⟩
+
+/-! ### The same for the renderer as it is now (after the F02 repair): no "glyphs fit" hypothesis -/
+
+open VaxisModel.Props.C01Clip (FrameInOkC clipIn stepHC stepHC_eq clipIn_ok) in
+/-- The emulator model fed what the repaired renderer (`renderFrameC`, /repo 990e1a4) writes. -/
+def runFramesC (dec : String → G) (cw : String → Nat) : HState → Emu → List FrameIn → M Emu
+  | _, e, [] => .ok e
+  | s, e, fi :: rest => do
+    let e' ← runOps e (opsOfToks dec cw (renderFrameC cw (mkFrame emuCaps s fi)).2)
+    runFramesC dec cw (stepHC cw emuCaps s fi) e' rest
+
+/-- `Shows` with the meaning of the screen of the repaired renderer: a glyph that does not fit in the
+    rest of its row shows as a blank in its style (`Spec.Expected.expectedC`). -/
+def ShowsC (dec : String → G) (cw : String → Nat) (fi : FrameIn) (e : Emu) : Prop :=
+  GridRel dec (Expected.expectedC cw emuCaps fi.next) e.active ∧
+  (if fi.cursor.visible then
+     e.mode.dectcem = true ∧ e.cur.row = fi.cursor.row ∧ e.cur.col = fi.cursor.col ∧ e.cur.shape = (fi.cursor.style : Int)
+   else e.mode.dectcem = false)
+
+theorem runFramesC_eq (dec : String → G) (cw : String → Nat) :
+    ∀ (fis : List FrameIn) (s : HState) (e : Emu),
+      runFramesC dec cw s e fis = runFrames dec cw s e (fis.map (C01Clip.clipIn cw)) := by
+  intro fis
+  induction fis with
+  | nil => intro s e; rfl
+  | cons a rest ih =>
+    intro s e
+    simp only [runFramesC, runFrames, List.map_cons, C01Clip.stepHC_eq, ih]
+    have : (renderFrameC cw (mkFrame emuCaps s a)).2 = (renderFrame cw (mkFrame emuCaps s (C01Clip.clipIn cw a))).2 := by
+      rw [Lemmas.RenderClip.renderFrameC_eq]; rfl
+    rw [this]
+
+theorem clipIn_emuOk (dec : String → G) (cw : String → Nat) (hsp : cw "20" = 1) (hd : dec "20" = [32]) (fi : FrameIn)
+    (h : EmuFrameOk dec cw fi) : EmuFrameOk dec cw (C01Clip.clipIn cw fi) := by
+  refine ⟨?_, h.2⟩
+  intro r hr c hc
+  obtain ⟨l, hl, rfl⟩ := List.mem_map.mp hr
+  obtain ⟨c0, h0, hc0⟩ := Lemmas.RenderClip.clipRow_mem cw l c hc
+  have hk := h.1 l hl c0 h0
+  rcases hc0 with rfl | rfl
+  · exact hk
+  · exact ⟨by show cw "20" ≤ 2; rw [hsp]; omega, fun _ => by show dec "20" ≠ []; rw [hd]; simp, hk.2.2⟩
+
+/-- **C12, composition theorem for the renderer as it is now, for all frame histories.** As
+    `emu_shows_application`, over `renderFrameC` (the transcription of `render()` after the F02 repair),
+    with C01's `FrameInOkC` (no hypothesis about glyphs fitting their row): after every frame the
+    emulator's grid shows the application's screen cell for cell — a glyph that cannot be shown because
+    it is wider than the rest of its row shows as a blank in its style — and the cursor is as requested. -/
+theorem emu_shows_application_now (dec : String → G) (cw : String → Nat) (hsp : cw "20" = 1) (hd : dec "20" = [32])
+    (hemp : dec "" = []) (rows cols : Nat) (e0 : Emu) (h0 : DSim dec (startDisplay cols rows) e0 rows cols)
+    (fi0 : FrameIn) (fis : List FrameIn) (hr0 : fi0.refresh = true)
+    (hok : ∀ fi ∈ fi0 :: fis, C01Clip.FrameInOkC cw emuCaps rows cols fi ∧ EmuFrameOk dec cw fi)
+    (fi : FrameIn) (hlast : (fi0 :: fis).getLast? = some fi) :
+    ∃ e', runFramesC dec cw (startState cols rows) e0 (fi0 :: fis) = .ok e' ∧ ShowsC dec cw fi e' := by
+  rw [runFramesC_eq]
+  obtain ⟨e', hr, hs⟩ := emu_shows_application dec cw hsp hd hemp rows cols e0 h0 (C01Clip.clipIn cw fi0)
+    (fis.map (C01Clip.clipIn cw)) hr0
+    (by
+      intro x hx
+      simp only [← List.map_cons, List.mem_map] at hx
+      obtain ⟨y, hy, rfl⟩ := hx
+      exact ⟨C01Clip.clipIn_ok cw emuCaps hsp rows cols y (hok y hy).1, clipIn_emuOk dec cw hsp hd y (hok y hy).2⟩)
+    (C01Clip.clipIn cw fi)
+    (by rw [← List.map_cons, List.getLast?_map, hlast]; rfl)
+  refine ⟨e', by simpa [List.map_cons] using hr, ?_⟩
+  unfold ShowsC
+  unfold Shows at hs
+  rw [Lemmas.RenderClip.expectedC_eq]
+  exact hs
+
+def gridF02 : Grid := [[({ g := "61" } : Cell), { g := "57", style := { fg := 16777217 } }]]
+def fiF02 : FrameIn := ⟨true, gridF02, {}, ""⟩
+
+/-- Non-vacuity / the F02 input: a wide glyph in the last column of a 2×1 emulator. The theorem
+    applies (no fitting hypothesis) and the emulator shows a blank in the glyph's style there. -/
+example :
+    ∃ e0 e1 e', Model.Emu.Emu.new Model.Emu.Fixes.current 2 1 = .ok e0 ∧
+      runOps e0 [.csi [63, 108] [(25, [])]] = .ok e1 ∧
+      runFramesC decEx cwEx (startState 2 1) e1 [fiF02] = .ok e' ∧ ShowsC decEx cwEx fiF02 e' := by
+  obtain ⟨e0, e1, h0, h1, hs⟩ := emu_start_related decEx rfl 2 1 (by decide) (by decide) (by decide) (by decide)
+  obtain ⟨e', hr, hsh⟩ := emu_shows_application_now decEx cwEx rfl rfl rfl 1 2 e1 hs fiF02 [] rfl
+    (by
+      intro fi hfi
+      simp only [List.mem_cons, List.not_mem_nil, or_false] at hfi
+      subst hfi
+      refine ⟨⟨rfl, by decide, ?_, fun h => absurd h (by decide)⟩, ?_, by decide⟩
+      · intro r hr c hc
+        simp only [fiF02, gridF02, List.mem_cons, List.not_mem_nil, or_false] at hr
+        subst hr
+        simp only [List.mem_cons, List.not_mem_nil, or_false] at hc
+        rcases hc with rfl | rfl <;> exact ⟨rfl, by decide, Or.inl rfl⟩
+      · intro r hr c hc
+        simp only [fiF02, gridF02, List.mem_cons, List.not_mem_nil, or_false] at hr
+        subst hr
+        simp only [List.mem_cons, List.not_mem_nil, or_false] at hc
+        rcases hc with rfl | rfl <;> exact ⟨by decide, by decide, by decide⟩)
+    fiF02 rfl
   exact ⟨e0, e1, e', h0, h1, hr, hsh⟩
 
 end VaxisModel.Props.C12
